@@ -80,6 +80,11 @@ use crate::parser::Element;
 //@end
 
 //@item file=code/remover/marker/availability/unwrap_block_marker_availability.rs kind=struct name=UnwrapBlockMarkerAvailability
+//@fn id=unwrap_marker_availability_new file=code/remover/marker/availability/unwrap_block_marker_availability.rs name=new in="impl UnwrapBlockMarkerAvailability" props=C11
+//@ret r
+//@ensures label=availability_new props=C11
+    r.tag_name == tag_name,
+//@end
 //@fn id=unwrap_marker_availability file=code/remover/marker/availability/unwrap_block_marker_availability.rs name=is_available in="impl MarkerAvailability for UnwrapBlockMarkerAvailability" props=C03,C11
 //@ret r
 //@container-extra
